@@ -472,8 +472,14 @@ func shape(d directives.Directive) *Violation {
 
 func drawC07(t *rapid.T) C07Case {
 	src := rapid.SampledFrom([]string{"valid", "valid", "valid", "mutated", "mutated", "mutated", "soup", "bytes", "bom"}).Draw(t, "source")
+	if gen.Rare(t, "largeFile", 10) {
+		src = "large"
+	}
 	var text string
 	switch src {
+	case "large":
+		// a file of realistic size: more than a thousand directives, now and then a transaction with hundreds of bookings
+		text = gen.RenderNoisy(t, gen.GenSyntaxJournalN(t, 1025, 2600, true))
 	case "valid":
 		text = gen.RenderNoisy(t, gen.GenSyntaxJournal(t, 12, true))
 	case "mutated":
